@@ -490,6 +490,16 @@ func holdersOf(p *Prog, v ssa.Value, transitive bool) []ssa.Value {
 
 // sharedHolder: v is reached through an object that comes from a package-level table or the shared configuration.
 func sharedHolder(p *Prog, v ssa.Value) string {
+	if pointeeName(v.Type()) == "Linter" {
+		return "the Linter itself, whose fields every per-file goroutine reads"
+	}
+	// a container held directly by a field of the Linter (objects further away have their own discipline: the formatter's
+	// rule table is guarded by a mutex, decided by C10.LOCK)
+	for _, h := range holdersOf(p, v, false) {
+		if pointeeName(h.Type()) == "Linter" {
+			return "a field of the Linter, which every per-file goroutine reads"
+		}
+	}
 	for _, h := range holdersOf(p, v, true) {
 		if _, isAlloc := h.(*ssa.Alloc); isAlloc {
 			continue
